@@ -369,6 +369,47 @@ Definition wall (v : string) : list wr :=
   [WFill FScopes v; WFill FStores v; WFill FIds v; WMapFill v; WMapSet "revocation" v; WMapSet v v;
    WName v; WLevel v; WVts v; WAppend FScopes v; WAppend FStores v; WAppend FIds v].
 
+(* ---- objects reachable from a statement struct ---- *)
+Definition olist (r : option oid) : list oid := match r with Some o => [o] | None => [] end.
+
+Definition ptr_fields (o : obj) : list oid :=
+  match o with
+  | OStmt _ sc _ ov _ st ids _ => (olist sc ++ olist ov ++ olist st ++ olist ids)%list
+  | _ => []
+  end.
+
+Definition reach (h : heap) (p : oid) : list oid :=
+  p :: match nth_error h p with Some o => ptr_fields o | None => [] end.
+
+(* ---- a caller's whole session with one document: any number of selections,
+   interleaved with writes through any of the statements handed out so far ---- *)
+Inductive op :=
+| OSel (q : query)              (* select; the pointer received is remembered *)
+| OWr (k : nat) (w : wr).       (* write through the k-th pointer received so far *)
+
+Fixpoint session (deep : bool) (doc : list oid) (h : heap) (ptrs : list oid) (ops : list op)
+  : list res * heap :=
+  match ops with
+  | [] => ([], h)
+  | OSel q :: ops' =>
+      let hr := h_select deep h doc q in
+      let ptrs' := match snd hr with HSel p => (ptrs ++ [p])%list | HErr _ => ptrs end in
+      let '(rs, hf) := session deep doc (fst hr) ptrs' ops' in
+      (res_view hr :: rs, hf)
+  | OWr k w :: ops' =>
+      match nth_error ptrs k with
+      | Some p => session deep doc (apply_wr p h w) ptrs ops'
+      | None => session deep doc h ptrs ops'
+      end
+  end.
+
+Fixpoint sel_queries (ops : list op) : list query :=
+  match ops with
+  | [] => []
+  | OSel q :: ops' => q :: sel_queries ops'
+  | OWr _ _ :: ops' => sel_queries ops'
+  end.
+
 (* ---- a document value laid out on a heap, every slice and map its own object ---- *)
 
 Definition load_arr (h : heap) (l : list string) : heap * option oid :=
@@ -523,8 +564,13 @@ Definition names_unique (d : list stmt) : bool := nodupb (map s_name d).
 Definition global_unique (d : list stmt) : bool :=
   match filter s_global d with [] | [_] => true | _ => false end.
 
+(* a statement that uses the wildcard scope uses nothing else *)
+Definition wildcard_alone (d : list stmt) : bool :=
+  forallb (fun s => negb (mem_str wildcard (s_scopes s))
+                    || list_eqb String.eqb (s_scopes s) [wildcard]) d.
+
 Definition valid_doc (d : list stmt) : bool :=
-  scopes_unique d && names_unique d && global_unique d.
+  scopes_unique d && names_unique d && global_unique d && wildcard_alone d.
 
 Definition wf (i : input) : bool := valid_doc (i_doc i).
 
